@@ -219,6 +219,7 @@ def canon_err(e):
 
 QUERIES = ('q_all_qubits', 'q_freeze', 'q_len', 'q_is_meas', 'q_is_param', 'q_pnames', 'q_keys', 'q_next', 'q_prev', 'q_eam', 'q_op_at')
 BASIC = ('empty', 'new', 'insert', 'append') + QUERIES
+SUMMARY_QUERIES = ('q_all_qubits', 'q_is_param', 'q_pnames', 'q_is_meas', 'q_freeze')
 ATOMIC = ('bremove', 'breplace', 'binto', 'binsert')      # documented all-or-nothing
 REPLACING = ('new', 'copy', 'with_tags', 'slice', 'add', 'radd', 'mul', 'inv', 'transform', 'zip', 'concat')
 
@@ -1051,6 +1052,8 @@ def run_history(w, calls, rng=None, gen=None, n_calls=0):
     it = iter(calls) if gen is None else None
     for step in range(n_calls if gen is not None else len(calls)):
         call = gen.call() if gen is not None else next(it)
+        if call.get('syn'):          # recorded by an earlier run of the oracle; this run records its own
+            continue
         before = w.moments_uids()
         spec = Spec(w, call, before)
         want = spec.expected_error()
@@ -1059,7 +1062,8 @@ def run_history(w, calls, rng=None, gen=None, n_calls=0):
         moms = w.moments_uids()
         out_calls.append(call)
         trace.append((res, moms))
-        add = lambda kind, what: problems.append((step, kind, what))
+        at = len(out_calls) - 1
+        add = lambda kind, what: problems.append((at, kind, what))
         p = oracle_wf(w)
         if p:
             add('wf', p)
@@ -1088,6 +1092,12 @@ def run_history(w, calls, rng=None, gen=None, n_calls=0):
         if call['c'] in QUERIES or call['c'] not in BASIC:
             for p in oracle_queries(w, random.Random(step * 7919 + 13)):      # deterministic per step: shrinking stays reproducible
                 add('query', p)
+            # the oracle has filled the circuit's lazy summaries: make that part of the history the model sees
+            for q in SUMMARY_QUERIES:
+                syn = dict(c=q, syn=True)
+                rendered.append(coq_call(w, syn))
+                out_calls.append(syn)
+                trace.append((exec_call(w, syn), w.moments_uids()))
     for p in oracle_queries(w, random.Random(len(out_calls)), heavy=True):
         problems.append((len(out_calls) - 1, 'query', p))
     return out_calls, trace, problems
@@ -1173,6 +1183,8 @@ def history_stream(ctx, cirq, vocab, n, shard=300):
         ctx.count('history', history_doc(w, calls), nontrivial(w, calls, trace),
                   sample=dict(calls=calls[:4], final_moments=trace[-1][1]))
         for c, (r, _) in zip(calls, trace):
+            if c.get('syn'):
+                continue
             ctx.streams['call:' + c['c']] += 1
             if r[0] == 'err':
                 ctx.streams['raised:' + r[1]] += 1
@@ -1202,7 +1214,8 @@ def history_stream(ctx, cirq, vocab, n, shard=300):
         for hi, si in zip(nums[0::2], nums[1::2]):
             w, calls, trace = part[hi]
             ctx.mark_broken('correspondence:history',
-                            f'model and implementation differ at step {si} ({calls[si]}) of history {s + hi}: implementation gave {trace[si]}')
+                            f'model and implementation differ at step {si} ({calls[si]}) of history {s + hi}: implementation gave {trace[si]}; '
+                            f'history: {json.dumps(history_doc(w, calls[:si + 1]))[:30000]}')
             spec_search(ctx, cirq, vocab, w, calls, si)
 
 
